@@ -66,7 +66,8 @@ Definition wrel (w1 w2 : writer) : Prop :=
   (forall k v s1 s2, R s1 s2 -> R (wr_set w1 k v s1) (wr_set w2 k v s2)) /\
   (forall s1 s2, R s1 s2 -> wr_hdr w1 s1 = wr_hdr w2 s2) /\
   (forall c s1 s2, R s1 s2 -> R (wr_status w1 c s1) (wr_status w2 c s2)) /\
-  (forall bs s1 s2, R s1 s2 -> R (wr_write w1 bs s1) (wr_write w2 bs s2)).
+  (forall bs s1 s2, R s1 s2 -> R (wr_write w1 bs s1) (wr_write w2 bs s2)) /\
+  (forall s1 s2, R s1 s2 -> R (wr_flush w1 s1) (wr_flush w2 s2)).
 
 Definition hrel (h1 h2 : handler) : Prop :=
   forall w1 w2, wrel w1 w2 -> forall s1 s2, R s1 s2 -> R (h1 w1 s1) (h2 w2 s2).
@@ -121,28 +122,24 @@ Lemma base_status_R c s1 s2 : R s1 s2 -> R (base_status c s1) (base_status c s2)
 Proof.
   intros HR. pose proof HR as (a & b & c'). unfold base_status. rewrite b.
   destruct (p_sent (w_resp s2)); [exact HR|].
-  repeat split; simpl; auto.
+  destruct (is_info c); repeat split; simpl; auto.
 Qed.
 
 Lemma wrel_base : wrel base base.
 Proof.
-  repeat split; simpl.
-  - destruct H as (a & b & c). exact a.
-  - destruct H as (a & b & c). unfold base_set; simpl. rewrite b. reflexivity.
-  - destruct H as (a & b & c). exact c.
+  unfold wrel. cbn [base wr_set wr_hdr wr_status wr_write wr_flush]. repeat apply conj.
+  - intros k v s1 s2 (a & b & c). unfold base_set. rewrite b. repeat split; simpl; auto.
   - intros s1 s2 (a & b & c). rewrite b. reflexivity.
-  - apply (base_status_R c s1 s2 H).
-  - apply (base_status_R c s1 s2 H).
-  - apply (base_status_R c s1 s2 H).
-  - apply (base_status_R 200 s1 s2 H).
-  - unfold base_write; simpl. destruct (base_status_R 200 s1 s2 H) as (a & b & c). rewrite b. reflexivity.
-  - apply (base_status_R 200 s1 s2 H).
+  - intros c s1 s2 H. apply (base_status_R c s1 s2 H).
+  - intros bs s1 s2 H. unfold base_write. destruct (base_status_R 200 s1 s2 H) as (a & b & c).
+    rewrite b. repeat split; simpl; auto.
+  - intros s1 s2 H. apply (base_status_R 200 s1 s2 H).
 Qed.
 
 (* fundamental lemma: every handler program is related to itself *)
 Lemma run_h_hrel p : hrel (run_h p) (run_h p).
 Proof.
-  induction p as [|i k IH|k IH|n k IH|k IH|k IH|key v k IH|c k IH|bs k IH];
+  induction p as [|i k IH|k IH|n k IH|k IH|k IH|key v k IH|c k IH|bs k IH|k IH];
     intros w1 w2 Hw s1 s2 HR; cbn [run_h].
   - exact HR.
   - apply IH; auto. apply R_logev, HR.
@@ -153,7 +150,8 @@ Proof.
     apply IH; auto. apply R_logev, HR.
   - apply IH; auto. destruct Hw as (W1 & _). apply W1, HR.
   - apply IH; auto. destruct Hw as (_ & _ & W3 & _). apply W3, HR.
-  - apply IH; auto. destruct Hw as (_ & _ & _ & W4). apply W4, HR.
+  - apply IH; auto. destruct Hw as (_ & _ & _ & W4 & _). apply W4, HR.
+  - apply IH; auto. destruct Hw as (_ & _ & _ & _ & W5). apply W5, HR.
 Qed.
 
 (* LogRequest (fixed) changes nothing a handler, a client or another middleware can see *)
@@ -172,8 +170,8 @@ Qed.
 
 Lemma wrel_wrap id w1 w2 : wrel w1 w2 -> wrel (wrap_writer id w1) w2.
 Proof.
-  intros (W1 & W2 & W3 & W4). unfold wrel. cbn [wrap_writer wr_set wr_hdr wr_status wr_write].
-  split; [exact W1|]. split; [exact W2|]. split.
+  intros (W1 & W2 & W3 & W4 & W5). unfold wrel. cbn [wrap_writer wr_set wr_hdr wr_status wr_write wr_flush].
+  split; [exact W1|]. split; [exact W2|]. split; [|split; [|exact W5]].
   - intros c s1 s2 HR. apply W3. eapply R_trans; [apply R_set_cells|exact HR].
   - intros bs s1 s2 HR. apply W4. eapply R_trans; [apply R_set_cells|exact HR].
 Qed.
